@@ -86,6 +86,10 @@ def register(reg):
     register_wrappers(reg)
     register_can_see_operator(reg)
     register_view_regions(reg)
+    # BOUNDED stand-in for the object (ray-casting) branch: the real Object.canSee over a catalogue
+    from standins import view_volume
+
+    view_volume.register(reg)
 
 
 # =================================================================================================
